@@ -138,6 +138,8 @@ def check_sequences(ctx, ad):
         ctx.count({"adapter": ad.name, "spec": _spec_key(spec)},
                   nontrivial=True)
         ctx.stat("sequences:" + ad.name)
+        ctx.sample({"adapter": ad.name, "queries": len(qs),
+                    "spec_keys": sorted(spec)})
         ctx.stats["queries:" + ad.name] = len(qs)
         obj = ad.build(spec)
         order = list(qs) + rnd                  # random ones run, unchecked
